@@ -407,6 +407,10 @@ func c10Generate(cs *c10Case) []vegeta.Result {
 		e := ""
 		if (code < 200 || code >= 400) && r.Intn(5) != 0 {
 			e = errs[r.Intn(nerr)]
+		} else if code >= 200 && code < 400 && r.Intn(8) == 0 {
+			// a response with a success status whose body could not be read to its end: the error
+			// text and the status class are independent dimensions of a result
+			e = "read body: " + errs[r.Intn(nerr)]
 		}
 		out[i] = vegeta.Result{Attack: "c10", Seq: uint64(i), Code: code, Timestamp: c10Time(ts[i], zone[i]),
 			Latency: time.Duration(lat[i]), BytesIn: bytesOf(), BytesOut: bytesOf(), Error: e, Method: "GET", URL: "http://127.0.0.1/"}
@@ -448,6 +452,7 @@ func c10LiteralGrid() []c10Case {
 		mk("ties", c10Res{TS: t0, Lat: 5, Code: 200}, c10Res{TS: t0, Lat: 9, Code: 200}, c10Res{TS: t0 + sec, Lat: 1, Code: 200}, c10Res{TS: t0 + sec, Lat: 4, Code: 200}),
 		mk("ts-decreasing", c10Res{TS: t0 + 3*sec, Lat: 1, Code: 200}, c10Res{TS: t0 + 2*sec, Lat: 2, Code: 200}, c10Res{TS: t0 + sec, Lat: 3, Code: 200}, c10Res{TS: t0, Lat: 4, Code: 200}),
 		mk("code-window", c10Res{TS: t0, Lat: 1, Code: 199, Err: "199"}, c10Res{TS: t0 + 1, Lat: 1, Code: 200}, c10Res{TS: t0 + 2, Lat: 1, Code: 399}, c10Res{TS: t0 + 3, Lat: 1, Code: 400, Err: "400 Bad Request"}, c10Res{TS: t0 + 4, Lat: 1, Code: 0, Err: "dial"}),
+		mk("error-with-success-status", c10Res{TS: t0, Lat: 1, Code: 200, Err: "unexpected EOF"}, c10Res{TS: t0 + 1, Lat: 1, Code: 302, Err: "stopped after 10 redirects"}, c10Res{TS: t0 + 2, Lat: 1, Code: 500, Err: "500 Internal Server Error"}, c10Res{TS: t0 + 3, Lat: 1, Code: 503}),
 		mk("dup-errors", c10Res{TS: t0, Lat: 1, Code: 500, Err: "e"}, c10Res{TS: t0 + 1, Lat: 1, Code: 500, Err: "e"}, c10Res{TS: t0 + 2, Lat: 1, Code: 500, Err: "f"}, c10Res{TS: t0 + 3, Lat: 1, Code: 500, Err: "e"}, c10Res{TS: t0 + 4, Lat: 1, Code: 500}),
 		mk("zones", c10Res{TS: t0, Zone: 7200, Lat: 1e6, Code: 200}, c10Res{TS: t0 - sec, Zone: -36000, Lat: 2e6, Code: 200}, c10Res{TS: t0 + sec, Zone: 50400, Lat: 1e3, Code: 200}),
 		mk("epoch", c10Res{TS: 0, Lat: 1e6, Code: 200}, c10Res{TS: sec, Lat: 1e6, Code: 200}),
@@ -1206,6 +1211,33 @@ func c10EvalLib(cs c10Case, k int) (out c10Out) {
 				if diffs := c10CompareText(ref, tb.String()); len(diffs) > 0 {
 					c10Report(&out, &cs, k, &ord, "lib-text", "", ref, diffs, c10FirstOf(rs, perm), "")
 				}
+			}
+			if oi == 0 {
+				// one reporter used repeatedly (periodic reporting), the first time into an output that fails midway
+				bs, err := reportAgain(vegeta.NewTextReporter(&m), 1+len(tb.Bytes())/3)
+				if err != nil {
+					c10Report(&out, &cs, k, &ord, "lib-text-reused-reporter", "", ref, []c10Diff{{"text-shape", err.Error(), "a text report"}}, nil, "")
+				}
+				for _, b := range bs {
+					if diffs := c10CompareText(ref, string(b)); len(diffs) > 0 {
+						c10Report(&out, &cs, k, &ord, "lib-text-reused-reporter", "", ref, diffs, c10FirstOf(rs, perm), "")
+						break
+					}
+				}
+				bs, err = reportAgain(vegeta.NewJSONReporter(&m), 1+len(jb.Bytes())/3)
+				if err != nil {
+					c10Report(&out, &cs, k, &ord, "lib-json-reused-reporter", "", ref, []c10Diff{{"json-shape", err.Error(), "a JSON document"}}, nil, "")
+				}
+				for _, b := range bs {
+					if snap, err := c10SnapJSON(b); err != nil {
+						c10Report(&out, &cs, k, &ord, "lib-json-reused-reporter", "", ref, []c10Diff{{"json-shape", err.Error(), "a JSON document"}}, nil, "")
+						break
+					} else if diffs := c10Compare(ref, snap); len(diffs) > 0 {
+						c10Report(&out, &cs, k, &ord, "lib-json-reused-reporter", "", ref, diffs, c10FirstOf(rs, perm), "")
+						break
+					}
+				}
+				out.count("reporters_used_repeatedly", 2)
 			}
 		}
 	}
